@@ -107,5 +107,92 @@ theorem ackInv_reach {cfg : Cfg} {now : Nat} {seeds : List Nat} {clients : Nat} 
   | init sm => exact ackInv_init _ _ _ _ sm
   | step hr hs ih => exact ackInv_step (binv_reach hr) (wabsent_reach hr) ih hs
 
+/-! ## 2  `put` / `put_with_ttl`: the effect is in place when the acknowledgement is answered -/
+
+/-- **The effect of an accepted put `c`** whose stored deadline is `exp`, as a predicate on the shared state:
+    the store holds under `c.k` exactly the command's entry (value, id, deadline, not soft-deleted), the id is charged
+    with the command's key, hash and weight, and a deadline is indexed under the shard of the deadline. -/
+structure PutEffect (b : BState) (c : PutCmd) (exp : Option Nat) : Prop where
+  stored : b.g.store.get? c.k = some { value := c.v, id := c.id, expiry := exp, soft := false }
+  charged : b.g.adm.kw.get? c.id = some { key := c.k, hash := c.hash, weight := c.w }
+  indexed : ∀ e, exp = some e → b.g.ttl.get? (shardOf b.g.cfg e, c.id) = some e
+
+theorem ack_held_of_cmd {w : WPc} {c : PutCmd} (h : w.cmd? = some c) : w.held = c.h ∧ w.busy = true := by
+  cases w <;> simp only [WPc.cmd?, Option.some.injEq, reduceCtorEq] at h <;> subst h <;> exact ⟨rfl, rfl⟩
+
+/-- the total includes the weight of a charged id (running cache): `used = w + Σ (the other charges) − in-flight add +
+    in-flight subs` -/
+theorem ack_total_includes {b : BState} (hb : BInv b) (hrun : b.g.shutting = false) {id : Nat} {wk : WKey}
+    (hg : b.g.adm.kw.get? id = some wk) :
+    b.g.adm.used = wk.weight + sumW (b.g.adm.kw.del id) - pendingAdd b + pendingSub b := by
+  have h1 := (hb.acct hrun).sum
+  have h2 := sumW_del hb.kwNoDup hg
+  omega
+
+/-- **C12 / C02: the put is visible.**  In a state in which the effect of the put is in place, the `store.get` action of
+    a `get(c.k)` (clock not past the deadline) is a hit carrying `c.v`, and the call returns `Some(c.v)`. -/
+theorem PutEffect.get_returns {b : BState} {c : PutCmd} {exp : Option Nat} (he : PutEffect b c exp)
+    (hlive : ∀ e, exp = some e → ¬ b.g.now > e) {i : Nat} (hpc : b.cl[i]? = some (.getStore c.k))
+    {b1 : BState} {o o1 : Oracle} (hs : stepB b (.client i) o = .ok (b1, o1)) :
+    b1.cl = b.cl.set i (.getPool c.k c.v) ∧
+    ∀ {b2 b3 : BState} {o2 o3 : Oracle}, b2.cl[i]? = some (.getPool c.k c.v) → stepB b2 (.client i) o2 = .ok (b3, o3) →
+      b3.res = b2.res.set i (.value (some c.v) :: b2.res.getD i []) := by
+  have halive : ({ value := c.v, id := c.id, expiry := exp, soft := false } : Entry).alive b.g.now = true := by
+    cases exp with
+    | none => rfl
+    | some e => simpa [Entry.alive] using hlive e rfl
+  constructor
+  · rcases (C02_layerB_get_store hpc hs).1 with ⟨e, hk, _, hcl, _⟩ | ⟨hdead, _, _⟩
+    · rw [he.stored] at hk; cases hk; exact hcl
+    · rw [hdead _ he.stored] at halive; cases halive
+  · intro b2 b3 o2 o3 hpc2 hs2
+    exact (C02_layerB_get_pool hpc2 hs2).2
+
+/-- a handle the worker holds names an existing cell -/
+theorem ack_held_lt {cfg : Cfg} {now : Nat} {seeds : List Nat} {clients : Nat} {b : BState}
+    (hr : Reach cfg now seeds clients b) {h : Nat} (hheld : b.w.held = some h) : h < b.g.acks.length :=
+  (hinv_reach hr).lt_held hheld
+
+/-- **C12 (put without time-to-live): the effect is in place when the acknowledgement is answered `Accepted`.**
+    `b` any reachable state of a running cache in which the worker is executing the put `c` (no time-to-live) with
+    handle `h`; the worker's action `b → b'` answers the cell `h` with `Accepted`.  Then that action is the `store.put`
+    itself, the key was absent, and in `b'`: the store holds exactly the command's entry, the id is charged with the
+    command's weight, the total includes it, and no other key, charge or index entry changed in this action. -/
+theorem C12_layerB_put_effect_before_ack {cfg : Cfg} {now : Nat} {seeds : List Nat} {clients : Nat} {b b' : BState}
+    {o o' : Oracle} {c : PutCmd} {h : Nat} (hr : Reach cfg now seeds clients b) (hrun : b.g.shutting = false)
+    (hc : b.w.cmd? = some c) (hh : c.h = some h) (httl : c.ttl = none) (hs : stepB b .worker o = .ok (b', o'))
+    (ha : b'.g.acks[h]? = some .accepted) :
+    b.w = .storePut c ∧ b.g.acks[h]? = some .pending ∧ b.g.store.get? c.k = none ∧ b'.w = .recv ∧
+    PutEffect b' c none ∧
+    b'.g.adm.used = c.w + sumW (b'.g.adm.kw.del c.id) + pendingSub b' ∧
+    (∀ k, k ≠ c.k → b'.g.store.get? k = b.g.store.get? k) ∧ b'.g.adm = b.g.adm ∧ b'.g.ttl = b.g.ttl := by
+  have hheld : b.w.held = some h := by rw [(ack_held_of_cmd hc).1, hh]
+  have hlt := ack_held_lt hr hheld
+  obtain ⟨hrecv, _, hp⟩ := ack_answer_recv (hinv_reach hr) hheld hs ha (by simp)
+  have hr' : Reach cfg now seeds clients b' := .step hr hs
+  have hrun' : b'.g.shutting = false := by
+    rw [wtrans_shutting (workerAct_trans (ack_stepB_worker hs))]; exact hrun
+  rcases ack_put_last_action hc hs hrecv with ⟨_, _, rfl⟩ | ⟨_, _, _, rfl⟩ | ⟨_, rfl⟩ | ⟨hw, _, rfl⟩ | ⟨e, hw, _⟩
+  · rw [hh, ack_finishCmd_get hlt] at ha; cases ha
+  · rw [hh, ack_rejectCmd_get hlt] at ha; cases ha
+  · rw [hh, ack_rejectCmd_get hlt] at ha; cases ha
+  · have hch := (ackInv_reach hr).putCharged hrun c hw
+    have hab := wabsent_reach hr c (by rw [hw]; rfl)
+    have heff : PutEffect (finishCmd { b with g := { b.g with
+          store := b.g.store.set c.k { value := c.v, id := c.id, expiry := none, soft := false },
+          stats := { b.g.stats with keysAdded := b.g.stats.keysAdded + 1 } } } c.h .accepted) c none :=
+      ⟨by simp [finishCmd], by simpa [finishCmd] using hch, by intro e he; cases he⟩
+    refine ⟨hw, hp, hab, hrecv, heff, ?_, ?_, rfl, rfl⟩
+    · have := ack_total_includes (binv_reach hr') hrun' heff.charged
+      have hpa : pendingAdd (finishCmd { b with g := { b.g with
+          store := b.g.store.set c.k { value := c.v, id := c.id, expiry := none, soft := false },
+          stats := { b.g.stats with keysAdded := b.g.stats.keysAdded + 1 } } } c.h .accepted) = 0 := rfl
+      rw [hpa] at this
+      simpa using this
+    · intro k hk
+      simp [finishCmd, AMap.get?_set_other _ _ (Ne.symm hk)]
+  · obtain ⟨t, ht⟩ := (ackInv_reach hr).ttlPutTtl c e hw
+    rw [httl] at ht; cases ht
+
 end B
 end Cached
